@@ -246,10 +246,14 @@ PROPS["C16"] = {
           bounds="struct {a: i64, b: bool} under record {a: long, b: boolean}; all values; bytes == reference, count == bytes emitted"),
         H("c16::ser_struct_out_of_order", functions=C16_FUNCS + ["serde::ser_schema::record::RecordSerializer::serialize_next_field", "serde::ser_schema::record::RecordSerializer::end"],
           bounds="struct with serde field order b, c, a under record {a, b, c: boolean} (two fields wait in the field cache); all 8 values; bytes in schema order"),
+        H("c16::ser_str_bytes", functions=C16_FUNCS + ["serde::ser_schema::SchemaAwareSerializer::serialize_str", "serde::ser_schema::SchemaAwareSerializer::serialize_bytes", "serde::ser_schema::SchemaAwareSerializer::write_bytes_with_len"],
+          bounds="str under string: all well-formed UTF-8 of <= 4 bytes; bytes under bytes: all byte strings of <= 4 bytes; bytes == reference (length prefix + payload), count == bytes emitted"),
+        H("c16::ser_option", functions=C16_FUNCS + ["serde::ser_schema::SchemaAwareSerializer::serialize_none", "serde::ser_schema::SchemaAwareSerializer::serialize_some"],
+          bounds="Option<i64> under union [null,long] and [long,null]: None and Some(all i64); branch index + datum == reference, count == bytes emitted"),
         H("c16::de_long", functions=C16_FUNCS, bounds="all byte strings of length <= 10 under schema long"),
         H("c16::de_scalars", functions=C16_FUNCS, bounds="all byte strings of length <= 10 under boolean / int / double"),
     ],
-    "outside": "everything but scalars: strings, bytes, options, sequences and maps with block settings, structs beyond the two listed shapes (cached fields of variable length, defaults for skipped fields, nested records, struct deserialization: not decided within the cap), enums, the schema-less to_value/from_value route. Agreement with the generic path is derived: both are decided equal to the same reference codec (serde side here, generic side in enc::* / dec::*).",
+    "outside": "strings/bytes longer than 4 bytes, options of other types, sequences and maps with block settings, structs beyond the two listed shapes (cached fields of variable length, defaults for skipped fields, nested records, struct deserialization: not decided within the cap), enums, the schema-less to_value/from_value route. Agreement with the generic path is derived: both are decided equal to the same reference codec (serde side here, generic side in enc::* / dec::*).",
     "assumptions": ["the byte-level agreement of the two routes is derived from their equality with one reference codec, not compared in one query"],
 }
 
